@@ -107,8 +107,25 @@ let pt a b = (n_of_int a, n_of_int b)
 
 (* parse a terminal op (after "T id"); returns None for arm/recv/new *)
 let erase_of_int = function 0 -> EDisplay | 1 -> EDisplayAbove | 2 -> EDisplayBelow | 3 -> ELine | 4 -> ELineLeft | _ -> ELineRight
+let manips : (int, op) Hashtbl.t = Hashtbl.create 8
+let parse_manip t : unit =
+  let oid = num t in
+  let o = match str t with
+    | "title" -> Some (Title (unhex (str t)))
+    | "move" -> let a = num t in let b = num t in Some (Move (pt a b))
+    | "raw" -> Some (WRaw (mk_elem t))
+    | "hide" -> Some Hide | "show" -> Some Show
+    | "mouse" -> Some (if num t <> 0 then MouseOn else MouseOff)
+    | "erase" -> Some (Erase EDisplay)
+    | _ -> None in
+  match o with Some o -> Hashtbl.replace manips oid o | None -> ()
+let forget k (st : tstate) : tstate =
+  match k with
+  | 0 -> { st with ts_last = None } | 1 -> { st with ts_cur = None }
+  | 2 -> { st with ts_saved = None } | _ -> { st with ts_vis = None }
 let parse_op name t : op option =
   match name with
+  | "use" -> (try Some (Hashtbl.find manips (num t)) with Not_found -> None)
   | "size" -> let a = num t in let b = num t in Some (SetSize (pt a b))
   | "elem" -> Some (WElem (mk_elem t))
   | "raw" -> Some (WRaw (mk_elem t))
@@ -151,7 +168,7 @@ let model_line out w line =
     match str t with
     | s when s.[0] = '#' -> ()
     | "CASE" -> Hashtbl.reset w.terms; Hashtbl.reset w.canvases; Hashtbl.reset w.screens; Hashtbl.reset w.parsers;
-        Hashtbl.reset tstrings; Hashtbl.reset held; Hashtbl.reset arm2; Hashtbl.reset failnext
+        Hashtbl.reset tstrings; Hashtbl.reset held; Hashtbl.reset arm2; Hashtbl.reset failnext; Hashtbl.reset manips
     | "END" -> ()
     | "T" ->
         let id = num t in
@@ -161,6 +178,9 @@ let model_line out w line =
           Hashtbl.replace w.terms id tm; out (pr_state tm.st) end
         else if name = "failnext" then Hashtbl.replace failnext id true
         else if name = "sleep" then ()
+        else if name = "forget" then begin
+          let tm = Hashtbl.find w.terms id in
+          tm.st <- forget (num t) tm.st; out "W -"; out (pr_state tm.st) end
         else begin
           let tm = Hashtbl.find w.terms id in
           let bytes =
@@ -314,6 +334,7 @@ let model_line out w line =
              out ("SH " ^ hex (show_stream vals));
              out ("SHS " ^ hex (show_stream vals))
          | _ -> out "ERR unknown value type")
+    | "O" -> parse_manip t
     | "Z" ->
         let id = num t in
         let get i = Hashtbl.find tstrings i in
@@ -327,6 +348,7 @@ let model_line out w line =
          | "copy" | "assign" -> put (get (num t))
          | "move" -> let from = num t in let v = get from in Hashtbl.remove tstrings from; put v
          | "appendelem" -> put (s_append_elem (get id) (mk_elem t))
+         | "appendown" -> let i = num t in let s0 = get id in put (s_append_elem s0 (List.nth s0 i))
          | "append" -> put (s_append (get id) (get (num t)))
          | "plus" -> let a = num t in let b = num t in put (s_append (get a) (get b))
          | "pluselem" -> let a = num t in put (s_append_elem (get a) (mk_elem t))
@@ -386,10 +408,24 @@ let configs =
       [("keep", adopt_keep); ("corner", adopt_corner)])
     [("deferred", Deferred); ("immediate", Immediate); ("nowrap", NoWrap)]
 
+type oitem = Obs of obs | Forgets of int
+
+(* oracle_run, with the application's own "I no longer know this" steps applied to the
+   belief the oracle carries (a weaker belief is still a true one) *)
+let oracle_items cfg beh af ct v0 (h : oitem list) =
+  let s0 = { os_vt = v0; os_prev = init_tstate; os_model = init_tstate; os_expect = None;
+             os_frame = blank_canvas N0 N0; os_idx = N0; os_fail = [] } in
+  let s = List.fold_left (fun s it ->
+    match it with
+    | Obs o -> oracle_step cfg beh af ct s o
+    | Forgets k -> { s with os_model = forget k s.os_model; os_prev = forget k s.os_prev;
+                            os_expect = (if k = 1 then None else s.os_expect) }) s0 h in
+  List.rev s.os_fail
+
 let oracle_mode () =
   let case = ref "" in
   let behs : (int, behaviour) Hashtbl.t = Hashtbl.create 8 in
-  let obs : (int, obs list ref) Hashtbl.t = Hashtbl.create 8 in
+  let obs : (int, oitem list ref) Hashtbl.t = Hashtbl.create 8 in
   let wf : (int, bool ref) Hashtbl.t = Hashtbl.create 8 in
   let sizes : (int, (n * n) ref) Hashtbl.t = Hashtbl.create 8 in
   let canvases : (int, canvas) Hashtbl.t = Hashtbl.create 8 in
@@ -407,7 +443,7 @@ let oracle_mode () =
          the C13 theorems and C08_forgets_on_resize hold for every state *)
       List.iter (fun (name, wm, af, v0) ->
         let cfg = { wrap = wm; bce = true; unicode_all = beh.b_unicode_all } in
-        let fails = oracle_run cfg beh af ct v0 h in
+        let fails = oracle_items cfg beh af ct v0 h in
         let fails = if ct then fails else List.filter (fun (_, c) -> int_of_n c = 1301 || int_of_n c = 802) fails in
         let fails = if ct || name = "deferred/keep/clean" then fails else [] in
         List.iter (fun (i, c) ->
@@ -419,7 +455,7 @@ let oracle_mode () =
           Printf.printf "FAIL case=%s term=%d cfg=%s op=%d code=%d\n" !case id name (int_of_n i) (int_of_n c)) fails)
         configs) obs;
     Hashtbl.reset behs; Hashtbl.reset obs; Hashtbl.reset wf; Hashtbl.reset sizes;
-    Hashtbl.reset canvases; Hashtbl.reset screens; Hashtbl.reset known_last; Hashtbl.reset failnext in
+    Hashtbl.reset canvases; Hashtbl.reset screens; Hashtbl.reset known_last; Hashtbl.reset failnext; Hashtbl.reset manips in
   let pending : (int * oop) option ref = ref None in
   let wbytes = ref [] in
   (try while true do
@@ -436,6 +472,10 @@ let oracle_mode () =
           if name = "new" then begin
             Hashtbl.replace behs id (mk_beh (num t)); Hashtbl.replace obs id (ref []);
             Hashtbl.replace wf id (ref true); Hashtbl.replace sizes id (ref (N0, N0)) end
+          else if name = "forget" then begin
+            let k = num t in
+            if k = 0 then Hashtbl.remove known_last id;
+            let l = Hashtbl.find obs id in l := Forgets k :: !l end
           else if name = "failnext" then Hashtbl.replace failnext id true
           else if (name = "elem" || name = "str") && (try Hashtbl.find failnext id with Not_found -> false) then
             (* an operation whose first write failed: it reached neither the terminal nor
@@ -456,6 +496,7 @@ let oracle_mode () =
                      | _ -> ());
                     pending := Some (id, OTerm o)
                 | None -> ())
+      | "O" -> parse_manip t
       | "K" ->
           let id = num t in
           (match str t with
@@ -494,7 +535,7 @@ let oracle_mode () =
       match !pending with
       | Some (id, o) ->
           let l = Hashtbl.find obs id in
-          l := { o_op = o; o_bytes = !wbytes; o_st = parse_state line } :: !l;
+          l := Obs { o_op = o; o_bytes = !wbytes; o_st = parse_state line } :: !l;
           pending := None
       | None -> ()
     end
